@@ -473,7 +473,10 @@ func (sa *Application) timeoutPlaceholderProcessing() {
 					continue
 				}
 				pendingRelease = append(pendingRelease, alloc)
-				sa.placeholderData[alloc.taskGroupName].TimedOut++
+				// only task groups that have placeholders are tracked: a pending real ask might not be part of one
+				if phData := sa.placeholderData[alloc.taskGroupName]; phData != nil {
+					phData.TimedOut++
+				}
 			}
 		}
 		log.Log(log.SchedApplication).Info("Placeholder timeout, releasing allocated and pending placeholders",
